@@ -3,13 +3,33 @@ import NeoFS.Model.Precision
 namespace NeoFS.Driver
 open NeoFS.Precision
 
+/-- `-` is the empty list, otherwise comma separated (signed) integers. -/
+def arithParseInts (s : String) : Option (List Int) :=
+  if s == "-" || s == "" then some []
+  else (s.splitOn ",").mapM String.toInt?
+
+/-- an int64 as the API takes it: anything else is not an amount -/
+def arithInt64? (n : Int) : Option Int :=
+  if -9223372036854775808 ≤ n ∧ n < 9223372036854775808 then some n else none
+
 def arithStep (o : OpLine) : String :=
   match o.name with
   | "precision" =>
-    match o.nat? "p", o.int? "n", o.get? "dir" with
+    match o.nat? "p", (o.int? "n").bind arithInt64?, o.get? "dir" with
     | some p, some n, some "toBalance" => s!"=> ok v={toBalance p n}"
     | some p, some n, some "toFixed8" => s!"=> ok v={toFixed8 p n}"
     | _, _, _ => "=> bad-op"
+  | "cconv" =>
+    -- g goroutines × r rounds through copies of one converter: every interleaving gives what the sequential
+    -- run gives (`Props/C39.lean`, `concurrent_eq_sequential`), so no conversion deviates
+    match o.nat? "p", o.nat? "g", o.nat? "r", (o.get? "ns").bind arithParseInts with
+    | some p, some g, some r, some ns =>
+      if g < 1 || g > 64 || r < 1 || ns.isEmpty || ns.any (fun n => (arithInt64? n).isNone) then "=> bad-op"
+      else
+        let b := runSeq p (ns.map fun n => { toBal := true, n := n })
+        let f := runSeq p (ns.map fun n => { toBal := false, n := n })
+        s!"=> ok b={showInts b} f={showInts f} bad=0"
+    | _, _, _, _ => "=> bad-op"
   | _ => "=> bad-op"
 
 end NeoFS.Driver
